@@ -17,6 +17,8 @@ def node_src(n, ind="") -> list[str]:
     L = []
     if k == "class":
         sup = next((f[6:] for f in flags if f.startswith("super-")), "none")
+        if "redefined" in flags:      # an earlier definition of the class with other members: the later one wins
+            L += [f"{ind}class {name}:", f"{ind}    zattr: int = 1", "", f"{ind}    def zmeth(self):", f"{ind}        ...", ""]
         bases = {"none": "", "one": "(BaseA)", "two": "(BaseA, BaseB)", "aliased": "(AliasA)", "subscripted": "(GenBase[int])", "userenum": "(BaseKind)"}[sup]
         L.append(f"{ind}class {name}{bases}:")
         body = []
